@@ -72,6 +72,15 @@ func init() {
 	addRules("C21", "R-RAWREAD", "R-GLOBALS", "R-SIZEPAIR")
 	addRules("C19", "R-SHORTREAD")
 	addRules("C09", "R-SHORTREAD")
+	// round 4
+	for _, pid := range []string{"C01", "C02", "C05", "C06", "C08", "C09", "C10", "C19"} {
+		addRules(pid, "R-READAT-SPEC")
+	}
+	addRules("C01", "R-APPLY-ALL")
+	addRules("C08", "R-HINTKEY", "R-INSERT-TOTAL")
+	addRules("C09", "R-INSERT-TOTAL")
+	addRules("C02", "R-HINTKEY")
+	addRules("C03", "R-APPLY-ALL")
 	addRules("C16", "R-RWPARITY", "R-ERRPOLICY")
 	addRules("C09", "R-RWPARITY")
 	addRules("C17", "R-RO")
@@ -175,7 +184,7 @@ func init() {
 	reg("R-REGEX-REMAINDER", "Every regular-expression match in the cone of Tx.PrefixSearchScan is applied to the scanned key with the scan's prefix parameter stripped (TrimPrefix(key, prefix) or key[len(prefix):]) and that key is the one tested with HasPrefix against the same prefix.", ruleRegexRemainder)
 	reg("R-METARANGE", "The conditional updates of BucketMeta.start (new minimum) and BucketMeta.end (new maximum) of one object are not mutually exclusive: some path performs both.", ruleMetaRange)
 	reg("R-LEAFCHAIN", "The B+ tree leaf chain that every scan walks: all walkers advance through one constant slot of Node.pointers, that slot is the last one and above every record slot, and every store that links a node into it is a list splice (fresh node; new.link = old.link or old.link == nil on every path, read before old.link = new); the slot is written nowhere else.", ruleLeafChain)
-	addRules("C02", "R-SEGPRED", "R-NEWEST", "R-COMMITTED-READ", "R-COMMITTED-SCAN-SPARSE", "R-REPLAY-KV")
+	addRules("C02", "R-SEGPRED", "R-TOMBSTONE-STOPS", "R-NEWEST", "R-COMMITTED-READ", "R-COMMITTED-SCAN-SPARSE", "R-REPLAY-KV")
 	addRules("C12", "R-COMMITTED-SCAN-SPARSE")
 	reg("R-COMMITTED-SCAN-SPARSE", "RangeScan, PrefixScan and PrefixSearchScan reach the committed-transaction index (ActiveCommittedTxIdsIdx or FindTxIDOnDisk) in their cones: sparse-mode scan results are filtered by committed transactions.", ruleCommittedScanSparse)
 	setExplain("C02", "Decides, for the sparse-mode read paths: every returned entry passed the tombstone and expiry guards; each segment-selection predicate (range, point, prefix) selects every segment that can hold a matching key (all orderings of bounds enumerated); merges are newest-wins (descending file id, first occurrence kept, memory before disk); results belong to committed transactions; the composite index key agrees between commit and reopen.", "")
